@@ -85,7 +85,7 @@ func (rs *RuleSet) String() string {
 func (rs *RuleSet) HasLowerCase() bool {
 	for _, st := range rs.States {
 		for _, r := range st.Rules {
-			if r.Action != "include" && r.Action != "return" && len(r.Name) > 0 && r.Name[0] >= 'a' && r.Name[0] <= 'z' {
+			if r.Action != "include" && r.Action != "return" && isLower(r.Name) {
 				return true
 			}
 		}
@@ -185,8 +185,17 @@ func GenRuleSet(t *rapid.T, o RuleOpts) *Generated {
 					name, pattern, info = p.name, p.pattern, p.pat
 				} else {
 					pre := "T"
-					if !o.NoLowerCase && rapid.IntRange(0, 4).Draw(t, "lower") == 0 {
+					switch k := rapid.IntRange(0, 14).Draw(t, "nameclass"); {
+					case k <= 2 && !o.NoLowerCase:
 						pre = "t"
+					case k == 3:
+						pre = "_r" // neither upper nor lower case: an ordinary (emitted) rule
+					case k == 4:
+						pre = "9x"
+					case k == 5:
+						pre = "Ünï"
+					case k == 6 && !o.NoLowerCase:
+						pre = "élan" // starts with a lower-case letter outside ASCII: elided
 					}
 					name = fmt.Sprintf("%s%d", pre, nameCount)
 					nameCount++
@@ -330,4 +339,55 @@ func (g *Generated) GenInput(t *rapid.T) string {
 		s = s[:rapid.IntRange(0, len(s)-1).Draw(t, "truncat")]
 	}
 	return s
+}
+
+// GenBackrefFamily draws a definition from a hand-shaped family that stresses back-reference
+// expansion: openers with two capture groups, closers that refer to both groups (adjacent or
+// separated), several entries into the same state per input with group texts drawn from a small
+// set whose concatenations collide ("ab"+"c" vs "a"+"bc"), so a compiled-pattern cache keyed too
+// coarsely gives the wrong closer.
+func GenBackrefFamily(t *rapid.T) (*RuleSet, func(t *rapid.T) string) {
+	sep := rapid.SampledFrom([]string{"/", "", "-", "\\|"}).Draw(t, "brsep")
+	closer := `\1` + sep + `\2`
+	if rapid.IntRange(0, 3).Draw(t, "brswap") == 0 {
+		closer = `\2` + sep + `\1`
+	}
+	open := rapid.SampledFrom([]string{`\[(\w+)\|(\w*)\]`, `<(\w*):(\w+)>`, `\[(\w+)\|(\w*)\]`}).Draw(t, "bropen")
+	rs := &RuleSet{States: []StateSpec{
+		{Name: "Root", Rules: []RuleSpec{{Name: "Open", Pattern: open, Action: "push", Target: "Body"}, {Name: "Word", Pattern: `\w+`}, {Name: "ws", Pattern: `\s+`}, {Name: "Punct", Pattern: `[^\w\s]`}}},
+		{Name: "Body", Rules: []RuleSpec{{Name: "Close", Pattern: closer, Action: "pop"}, {Name: "Nested", Pattern: open, Action: "push", Target: "Body"}, {Name: "Char", Pattern: `(?s:.)`}}},
+	}}
+	parts := []string{"a", "ab", "b", "bc", "c", "abc", "x", "xy", "y", "yz", "z"}
+	input := func(t *rapid.T) string {
+		var sb strings.Builder
+		n := rapid.IntRange(1, 4).Draw(t, "brn")
+		for i := 0; i < n; i++ {
+			g1 := rapid.SampledFrom(parts).Draw(t, "g1")
+			g2 := rapid.SampledFrom(parts).Draw(t, "g2")
+			if strings.HasPrefix(open, "<") {
+				sb.WriteString("<" + g1 + ":" + g2 + ">")
+			} else {
+				sb.WriteString("[" + g1 + "|" + g2 + "]")
+			}
+			sb.WriteString(rapid.SampledFrom([]string{"", "q", " ", "q q"}).Draw(t, "brbody"))
+			// the closer: usually the right one, sometimes one that only matches a colliding split
+			c1, c2 := g1, g2
+			if rapid.IntRange(0, 2).Draw(t, "brwrong") == 0 {
+				whole := g1 + g2
+				if len(whole) >= 2 {
+					k := rapid.IntRange(1, len(whole)-1).Draw(t, "brsplit")
+					c1, c2 = whole[:k], whole[k:]
+				}
+			}
+			plainSep := strings.ReplaceAll(sep, "\\", "")
+			if strings.HasPrefix(closer, `\2`) {
+				sb.WriteString(c2 + plainSep + c1)
+			} else {
+				sb.WriteString(c1 + plainSep + c2)
+			}
+			sb.WriteString(rapid.SampledFrom([]string{" ", "", " w "}).Draw(t, "brtail"))
+		}
+		return sb.String()
+	}
+	return rs, input
 }
